@@ -78,6 +78,12 @@ RD_KERNELS = {
                   specs=TR.RD_SPECS),
 }
 
+# "PPy" kernels (harness/translate_parser.py): `_ymd`, `parserinfo` and the small methods of `parser` in parser/_parser.py
+import translate_parser as TP
+PARSER_OPS = {
+    "ParserOps": dict(imports=["DateutilVerif.Model.ParserPy"], file="parser/_parser.py", specs=TP.PARSER_SPECS),
+}
+
 def write_if_changed(path, text):
     old = open(path).read() if os.path.exists(path) else None
     if old != text:
@@ -141,6 +147,20 @@ def gen_rd_kernels(repo, out, report):
             body = "/- GENERATED by harness/gen.py (translate_rd.py) from /repo's working tree — do not edit. -/\n"
             body += "".join("import %s\n" % i for i in cfg["imports"])
             body += "\nset_option linter.unusedVariables false\n\nnamespace Gen\n\n" + text + "\nend Gen\n"
+            changed = write_if_changed(path, body)
+            report["kernels"][mod] = {"ok": True, "fingerprints": fps, "changed": changed}
+        except (T.Untranslatable, SyntaxError, OSError) as ex:
+            report["kernels"][mod] = {"ok": False, "error": "%s: %s" % (type(ex).__name__, ex)}
+
+def gen_parser_ops(repo, out, report):
+    src = os.path.join(repo, "src", "dateutil")
+    for mod, cfg in PARSER_OPS.items():
+        path = os.path.join(out, mod + ".lean")
+        try:
+            text, fps = TP.translate_module(src, cfg["file"], cfg["specs"])
+            body = "/- GENERATED by harness/gen.py (translate_parser.py) from /repo's working tree — do not edit. -/\n"
+            body += "".join("import %s\n" % i for i in cfg["imports"])
+            body += "\nset_option linter.unusedVariables false\n\nnamespace Gen.P\n\n" + text + "\nend Gen.P\n"
             changed = write_if_changed(path, body)
             report["kernels"][mod] = {"ok": True, "fingerprints": fps, "changed": changed}
         except (T.Untranslatable, SyntaxError, OSError) as ex:
@@ -246,6 +266,7 @@ def main():
     gen_dt_kernels(a.repo, a.out, report)
     gen_rd_kernels(a.repo, a.out, report)
     gen_factory(a.repo, a.out, report)
+    gen_parser_ops(a.repo, a.out, report)
     gen_replace(a.repo, a.out, report)
     gen_rrbase(a.repo, a.out, report)
     gen_str_kernels(a.repo, a.out, report)
